@@ -24,7 +24,7 @@ pub fn scenarios() -> Vec<Scenario> {
         name: "c09-entrypoints",
         gen,
         run,
-        quick_runs: 100_000,
+        quick_runs: 1_500_000,
         weight: 1,
         rule: "case = (valid packet, sink behaviour); non-trivial when the sink script has a short write, a Pending or an EINTR; distinct by case hash",
     }]
